@@ -745,15 +745,11 @@ class Oracle(object):
             expect = None
             if inj is None:
                 expect = max(1, n_)
-            elif hasattr(inj, 'extra'):
-                expect = max(1, n_ + inj.extra)
-            else:
-                calls = inj.calls
-                if calls:
-                    rt, ret = calls[-1]
-                    if rt != self._nominal(e, n_):
-                        self.viol('C06', 'delay_model_input', '%s model given %s, nominal %s' % (e['tid'], rt, n_))
-                    expect = max(1, ret)
+            elif inj.calls:
+                rt, ret = inj.calls[-1]
+                if rt != self._nominal(e, n_):
+                    self.viol('C06', 'delay_model_input', '%s model given %s, nominal %s' % (e['tid'], rt, n_))
+                expect = max(1, ret)
             e['n'] = n_
             e['d'] = d
             if n_ == 0:
@@ -975,17 +971,11 @@ class Oracle(object):
                 continue
             t = e['task']
             added = None
-            if hasattr(inj, 'extra'):
-                if inj.calls:
-                    added = inj.extra > 0
-                    base = inj.calls[-1]
-                    newd = base + inj.extra
-            else:
-                if inj.calls:
-                    base, newd = inj.calls[-1]
-                    added = newd > base
-                    if newd < base:
-                        self.viol('C15', 'delay_model_shortened', '%s %s -> %s' % (e['tid'], base, newd))
+            if inj.calls:
+                base, newd = inj.calls[-1]
+                added = newd > base
+                if newd < base:
+                    self.viol('C15', 'delay_model_shortened', '%s %s -> %s' % (e['tid'], base, newd))
             if added:
                 self.probe('delayed_task')
                 self.res.faults['F1'] += 1
